@@ -16,6 +16,9 @@ limitations under the License.
 
 #include "libcellml/printer.h"
 
+#include <cmath>
+#include <iomanip>
+#include <limits>
 #include <list>
 #include <map>
 #include <sstream>
@@ -92,6 +95,30 @@ static std::string escapeAttributeValue(const std::string &value)
         }
     }
     return escaped;
+}
+
+/**
+ * @brief Convert a real number to the shortest string that is read back as the same number.
+ *
+ * Fifteen significant digits are enough for most values (and keep 0.1 as "0.1"), but some doubles
+ * need sixteen or seventeen digits to survive being written and parsed again.
+ *
+ * @param value The number to convert.
+ *
+ * @return The string representation of the number.
+ */
+static std::string convertToRoundTripString(double value)
+{
+    std::string result = convertToString(value);
+    int precision = std::numeric_limits<double>::digits10;
+    double readBack = 0.0;
+    while (std::isfinite(value) && (precision < std::numeric_limits<double>::max_digits10)
+           && !(convertToDouble(result, readBack) && (readBack == value))) {
+        std::ostringstream strs;
+        strs << std::setprecision(++precision) << value;
+        result = strs.str();
+    }
+    return result;
 }
 
 std::string printMapVariables(const VariablePairPtr &variablePair, IdList &idList, bool autoIds)
@@ -348,10 +375,10 @@ std::string Printer::PrinterImpl::printUnits(const UnitsPtr &units, IdList &idLi
                 units->unitAttributes(i, reference, prefix, exponent, multiplier, id);
                 repr += "<unit";
                 if (exponent != 1.0) {
-                    repr += " exponent=\"" + convertToString(exponent) + "\"";
+                    repr += " exponent=\"" + convertToRoundTripString(exponent) + "\"";
                 }
                 if (multiplier != 1.0) {
-                    repr += " multiplier=\"" + convertToString(multiplier) + "\"";
+                    repr += " multiplier=\"" + convertToRoundTripString(multiplier) + "\"";
                 }
                 if (!prefix.empty()) {
                     repr += " prefix=\"" + escapeAttributeValue(prefix) + "\"";
